@@ -17,6 +17,10 @@ ops:
   ["reg", [req ifaces], prov, name, vid]           registry.register (name 0 is '', k is 'n<k>')
   ["adapt", via, [args], p, name]   via = "qa" queryAdapter | "hook" adapter_hook | "multi" queryMultiAdapter
   ["implspec", c, b]      classImplements(c, implementedBy(b))   (b created before c)
+  ["held", i]             the specification operation i returned, flattened again now
+  "observe": [[j, [C ...]] ...]   a dependent subscribed to implementedBy(type(instance j)) that looks at
+                          super(C, instance j) inside its changed(); reported per operation under "fired"
+                          as [j, C, answer, I.providedBy set] (last firing)
   arg = ["obj", j] | ["super", C, j] | ["superc", C, T] super(C, T) bound to the class T | ["unbound", C] super(C)
 
 A case with "kind": "reg" is a registry history in the format of reg_common.py (static world with
@@ -53,6 +57,28 @@ class Factory:
         for o in objs:
             code = code * 10 + self.world.ident(o)
         return self.vid * 1000 + code
+
+
+class Observer:
+    """A dependent subscribed through the public Specification.subscribe() to implementedBy(type(ob)):
+    inside its changed() - that is, WHILE the change notification is still running - it looks at
+    super(C, ob) proxies.  Only the last firing of one operation is kept."""
+
+    def __init__(self, world, j, cs):
+        self.world, self.j, self.cs = world, j, cs
+
+    def changed(self, _spec):
+        w = self.world
+        seen = []
+        for c in self.cs:
+            try:
+                sup = super(w.classes[c], w.objects[self.j])
+                spec = providedBy(sup)
+                seen.append((c, spec, sorted(w.iface_no(i) for i in spec.flattened()),
+                             [n for n, i in enumerate(w.ifaces) if i.providedBy(sup)]))
+            except Exception:  # noqa
+                seen.append((c, None, None, None))
+        w.fired[self.j] = seen
 
 
 class World:
@@ -99,6 +125,13 @@ class World:
             if direct:
                 directlyProvides(ob, *[self.ifaces[i] for i in direct])
             self.objects.append(ob)
+        self.fired = {}
+        self.results = []       # the specification object every operation returned (held for good)
+        self.observers = []
+        for j, cs in case.get("observe", []):
+            o = Observer(self, j, cs)
+            self.observers.append(o)
+            implementedBy(type(self.objects[j])).subscribe(o)
         self.registry = AdapterRegistry()
         self.keep = []          # every specification ever returned stays alive
         self.other = []         # numbering of synthesized specifications
@@ -175,11 +208,16 @@ def run_op(w, op):
         return [], None
     if k == "prov":
         a = w.arg(op[1])
-        ans = w.describe(providedBy(a), op[1])
+        w.last = providedBy(a)
+        ans = w.describe(w.last, op[1])
         ip = [n for n, i in enumerate(w.ifaces) if i.providedBy(a)]
         return ans, ip
     if k == "implby":
-        return w.describe(implementedBy(w.arg(op[1])), op[1]), None
+        w.last = implementedBy(w.arg(op[1]))
+        return w.describe(w.last, op[1]), None
+    if k == "held":
+        # the specification object operation op[1] returned, looked at again
+        return w.describe(w.results[op[1]]), None
     if k == "reg":
         w.registry.register([w.ifaces[i] for i in op[1]], w.ifaces[op[2]], name_of(op[3]), Factory(op[4], w))
         return [], None
@@ -212,8 +250,10 @@ def run_case(case):
 def run_case1(case):
     w = World(case)
     mros = [[w.classes.index(c) for c in cl.__mro__] for cl in w.classes]
-    ans, ips = [], []
+    ans, ips, fired = [], [], []
     for op in case["ops"]:
+        w.fired = {}
+        w.last = None
         try:
             a, ip = run_op(w, op)
         except ValueError:
@@ -222,7 +262,14 @@ def run_case1(case):
             a, ip = [0], None
         ans.append(a)
         ips.append(ip)
-    return {"mros": mros, "ans": ans, "ip": ips}
+        w.results.append(w.last)
+        # what the observers saw during this operation's notifications (last firing each): numbered now
+        f = []
+        for j in sorted(w.fired):
+            for c, spec, content, ip2 in w.fired[j]:
+                f.append([j, c, [0] if spec is None else w.describe(spec)[:3] + content, ip2])
+        fired.append(f)
+    return {"mros": mros, "ans": ans, "ip": ips, "fired": fired}
 
 
 def run_reg_case(case):
